@@ -100,7 +100,69 @@ def placeholder_sheet(stmts, table):
     return res
 
 
+# ---- string-valued variables (outside the evaluator model), real compiler only: "@{s}" inside a string / url / selector is replaced by the
+# text between the quotes of the variable's value, blanks at its ends included, and every OTHER use of the variable (before, after, in another
+# rule, as a mixin argument) still prints the value with its quotes
+def string_var_program(rng):
+    chars = 'abcxyz019 -_|/.:'
+    def body():
+        b = ''.join(rng.choice(chars) for _ in range(rng.randint(1, 6)))
+        return rng.choice(['', ' ', '  ']) + b + rng.choice(['', ' ', '  ', '\t'])
+    q1, q2 = rng.choice(['"', "'"]), rng.choice(['"', "'"])
+    v1, v2 = body(), body()
+    text = '@s1: %s%s%s;\n@s2: %s%s%s;\n' % (q1, v1, q1, q2, v2, q2)
+    exp = []
+    for k in range(rng.randint(1, 3)):
+        q = rng.choice(['"', "'"])
+        shape = rng.randrange(5)
+        if shape == 0:
+            text += '.r%d { content: %sA@{s1}B@{s2}C%s; font-family: @s1; }\n' % (k, q, q)
+            exp += [('.r%d' % k, 'content', '%sA%sB%sC%s' % (q, v1, v2, q)), ('.r%d' % k, 'font-family', q1 + v1 + q1)]
+        elif shape == 1:
+            text += '.r%d { quotes: @s2; content: %s@{s2}%s; }\n' % (k, q, q)
+            exp += [('.r%d' % k, 'quotes', q2 + v2 + q2), ('.r%d' % k, 'content', q + v2 + q)]
+        elif shape == 2:
+            text += '.r%d { background: url(%s@{s1}/a.png%s); font-family: @s1; }\n' % (k, q, q)
+            exp += [('.r%d' % k, 'background', 'url(%s%s/a.png%s)' % (q, v1, q)), ('.r%d' % k, 'font-family', q1 + v1 + q1)]
+        elif shape == 3:
+            text += '.m%d(@p) { content: %s<@{p}>%s; quotes: @p; }\n.r%d { .m%d(@s2); }\n' % (k, q, q, k, k)
+            exp += [('.r%d' % k, 'content', '%s<%s>%s' % (q, v2, q)), ('.r%d' % k, 'quotes', q2 + v2 + q2)]
+        else:
+            text += '.r%d { font-family: @s1; .in { content: %s@{s1}@{s1}%s; } quotes: @s1; }\n' % (k, q, q)
+            exp += [('.r%d' % k, 'font-family', q1 + v1 + q1), ('.r%d' % k, 'quotes', q1 + v1 + q1), ('.r%d .in' % k, 'content', q + v1 + v1 + q)]
+    return text, exp
+
+
+def run_string_vars(ctx, out):
+    rng = random.Random(ctx['seed'] * 1000003 + 1819)
+    n = (60 if ctx['tier'] == 'quick' else 1500) * ctx.get('mult', 1)
+    progs = [string_var_program(rng) for _ in range(n)]
+    with impl.Pool() as pool:
+        ans = pool.run([{'kind': 'compile', 'text': p[0], 'opts': {}} for p in progs])
+    for (text, exp), a in zip(progs, ans):
+        out['evaluations'] += 1
+        ok = a.get('r') == 'ok'
+        if ok:
+            got = {}
+            for m in re.finditer(r'^([^\n{}]+) \{\n((?:[^{}]*\n)*?)\}', a['css'], re.M):
+                for line in m.group(2).split(';\n'):
+                    if ':' in line:
+                        nm, val = line.strip().split(':', 1)
+                        got[(m.group(1).strip(), nm.strip())] = val.strip().rstrip(';')
+            ok = all(got.get((sel, nm)) == val for sel, nm, val in exp)
+        if not ok:
+            out['spec_mismatch'].append({'input': {'text': text, 'opts': {}}, 'impl': a,
+                                         'spec': {'expected declarations (selector, property, value)': exp}, 'classes': []})
+    out.setdefault('distribution', {})['string_valued_interpolation_programs'] = len(progs)
+
+
 def run(ctx):
+    out = _run(ctx)
+    run_string_vars(ctx, out)
+    return out
+
+
+def _run(ctx):
     out = P.run_sheets(ctx, 18, FEATURES, 150, 4000, depth=3, all_opts=True, wild=False, nontrivial=has_structural, gen_hook=hook)
     # ---- the property itself on the real output: verbatim + inert
     rng = random.Random(ctx['seed'] * 1000003 + 1818)
